@@ -98,8 +98,11 @@ def render_item(it, indent=""):
         a = ["%s=%s" % (key, render_expr(e)) for key, e in it["kwargs"]]
         return [indent + "%s(%s) | %s" % (it["prog"], ", ".join(a), render_modes(it["modes"], st))]
     if k == "loop":
-        vals = ", ".join(str(v) for v in it["vals"])
-        lines = [indent + "for int %s in [%s]" % (it["var"], vals)]
+        if it.get("range"):
+            hdr = ":".join(str(v) for v in it["range"])
+        else:
+            hdr = "[%s]" % ", ".join(str(v) for v in it["vals"])
+        lines = [indent + "for int %s in %s" % (it["var"], hdr)]
         for b in it["body"]:
             lines += render_item(b, indent + "    ")
         return lines
@@ -326,7 +329,7 @@ def expand_file(fs, path, depth=0, stack=()):
                 v = {"c": F(int(v["c"])), "t": {}}
             env[("v", it["name"])] = v
         elif it["k"] == "loop":
-            for val in it["vals"]:
+            for val in (range(*it["range"]) if it.get("range") else it["vals"]):
                 env[("v", it["var"])] = {"c": F(val), "t": {}}
                 for b in it["body"]:
                     do_stmt(b)
